@@ -263,7 +263,7 @@ TRICKY: t.Dict[str, t.List[t.Any]] = {
 }
 
 SCALAR_NAMES = ['int', 'float', 'complex', 'str', 'bytes', 'bytearray', 'bool', 'none', 'any', 'Decimal', 'Fraction',
-                'date', 'time', 'datetime', *PATH_TYPES.keys(), *PATTERNS.keys()]
+                'date', 'time', 'datetime', 'Workday', *PATH_TYPES.keys(), *PATTERNS.keys()]
 
 
 _PLAIN = (int, float, complex, str, bytes, bytearray, bool)
@@ -286,6 +286,8 @@ class Scalar(Node):
                   'date': datetime.date, 'time': datetime.time, 'datetime': datetime.datetime}
         if n == 'none' and len(self.spec) > 2:
             return None     # the bare spelling
+        if n == 'Workday':
+            return usertypes.Workday
         if n in simple:
             return simple[n]
         if n in PATH_TYPES:
@@ -333,7 +335,7 @@ class Scalar(Node):
         if n == 'Fraction':
             return st.one_of(st.integers(-10**6, 10**6), finite_floats, st.sampled_from(['1/2', '-3/4', '1.5', '7', '1e3', ' 2/3 ']),
                              st.fractions(max_denominator=50).map(str))
-        if n == 'date':
+        if n in ('date', 'Workday'):
             return st.dates().map(lambda d: d.isoformat())
         if n == 'time':
             return st.times().map(lambda d: d.isoformat())
@@ -352,6 +354,8 @@ class Scalar(Node):
         ty = type(v)
         if n == 'any':
             return Acc(v)
+        if n == 'Workday':
+            return Unspec('a user subclass of a date type (whether and how it is built from data is not documented)')
         if ty not in _PLAIN and isinstance(v, _PLAIN):
             return Unspec('instance of a subclass of an interchange type given to a scalar target')
         if n == 'none':
